@@ -817,10 +817,12 @@ impl CoreApi for Enforcer {
     #[cfg(feature = "watcher")]
     #[inline]
     fn enable_auto_notify_watcher(&mut self, auto_notify_watcher: bool) {
-        // drop any callback registered earlier (one is registered at
-        // construction): enabling twice must not notify twice per change
-        self.off(Event::PolicyChange);
-        if auto_notify_watcher {
+        if !auto_notify_watcher {
+            self.off(Event::PolicyChange);
+        } else if !self.auto_notify_watcher {
+            // only when switching from off to on: a callback is already
+            // registered while notifications are enabled (one is registered
+            // at construction), a second one would notify twice per change
             self.on(Event::PolicyChange, notify_logger_and_watcher);
         }
 
